@@ -51,6 +51,8 @@ type loopAct struct {
 	varGoals  [][]*Term // per variant candidate, per back edge
 	steps     []*LoopInv
 	stepHead  []map[string]Value
+	exits     []*LoopInv
+	exitHead  []map[string]Value
 	varHead   []*Term
 	frame     *Frame
 	invs      []*LoopInv
@@ -75,6 +77,7 @@ type RunCfg struct {
 	fnHavoc      map[string]bool            // loopKey|kind : writes reach pre-loop objects, all allocated by the enclosing function
 	unroll       map[string]int             // loopKey -> K (bounded stand-in / full unroll)
 	unwindAssert map[string]bool            // loopKey: prove that K iterations suffice (complete)
+	initMode     bool                       // executing the package initialisers: loops are run concretely
 	unrollAll    int                        // != 0: every loop without an entry in unroll is unrolled this often (-1: zero times)
 	noVariant    map[string]bool            // loops whose termination is not claimed (probabilistic)
 	boundedNote  string                     // the lemma is a bounded stand-in (description of the bound)
@@ -104,6 +107,8 @@ type Exec struct {
 	boxes         map[int]Value
 	noWF          bool
 	loops         []*loopAct
+	frameMarks    []*frameMark
+	initVisited   map[int]map[int64]bool
 	unsup         []string
 	inputArr      map[int]bool
 	cfg           *RunCfg
@@ -253,6 +258,7 @@ func (ex *Exec) oblige(class, what string, reach, cond *Term) *Obligation {
 }
 
 func (ex *Exec) noteWrite(k *kindInfo, guard, ref, n *Term) {
+	ex.frameNote(k, guard, ref, n)
 	for _, l := range ex.loops {
 		if l.key == ex.cfg.fnScope && l.info == nil {
 			// write through a pointer parameter of the function whose frame is being computed
@@ -791,6 +797,10 @@ func (ex *Exec) loopHead(f *Frame, b *ssa.BasicBlock, lp *loopInfo, entry *Term)
 	for _, st := range act.steps {
 		act.stepHead = append(act.stepHead, ex.stepHeadArgs(f, act, st))
 	}
+	act.exits = ex.P.loopExits[key]
+	for _, st := range act.exits {
+		act.exitHead = append(act.exitHead, ex.stepHeadArgs(f, act, st))
+	}
 	act.variants = ex.variantCandidates(f, act, phis)
 	act.varGoals = make([][]*Term, len(act.variants))
 	act.varHead = nil
@@ -1264,6 +1274,15 @@ func (ex *Exec) setEdge(f *Frame, from, to *ssa.BasicBlock, c *Term) {
 		}
 		ex.backEdge(f, from, to, c)
 		return
+	}
+	// an edge that leaves a cut loop from inside its body: exit predicates
+	for _, lp := range f.info.inLp[from] {
+		if act := f.acts[lp]; act != nil && len(act.exits) > 0 && from != lp.head && !lp.body[to] && !c.IsFalse() {
+			getHead := func(p *ssa.Phi) Value { return act.headVals[p] }
+			for i, st := range act.exits {
+				ex.checkStep(f, act, st, act.exitHead[i], c, getHead)
+			}
+		}
 	}
 	if old, ok := f.edge[k]; ok {
 		c = Or(old, c)
@@ -2238,7 +2257,7 @@ func (ex *Exec) unrollLoop(f *Frame, lp *loopInfo, k int, entry *Term) {
 			break
 		}
 		if it == k {
-			if ex.cfg.unwindAssert[key] {
+			if ex.cfg.unwindAssert[key] || ex.cfg.initMode {
 				ex.oblige("unwind", fmt.Sprintf("%s after %d iterations", key, k), cur, False())
 			} else {
 				ex.assumeGlobal(Not(cur))
@@ -2340,7 +2359,87 @@ func itvID(t *Term) int {
 // yet visited (it becomes visited); !ok => every present key has been visited (stated
 // for all keys, and instantiated for the keys the execution has stored into maps of
 // this type, which is what bounded enumerations need).
+// mapNextConcrete: package initialisers run on concrete data; a range over a map whose
+// entries were all stored under concrete keys is executed entry by entry (in key order:
+// the initialisers' result may not depend on Go's iteration order anyway).
+func (ex *Exec) mapNextConcrete(f *Frame, x *ssa.Next, it *Term, mt *types.Map) (Value, bool) {
+	m := ex.gread("mapiter.map", it)
+	mc, ok := m.ConstInt()
+	if !ok {
+		return nil, false
+	}
+	base := mapBase(mt)
+	pk := ex.mem.kind(base+"#present", SBool, nil, nil, false)
+	present := map[int64]bool{}
+	for i := range pk.log {
+		e := &pk.log[i]
+		if e.typ == eZero || e.typ == eLit {
+			continue
+		}
+		if e.typ != eStore || e.ref == nil {
+			return nil, false
+		}
+		rc, ok := e.ref.ConstInt()
+		if !ok {
+			return nil, false
+		}
+		if rc != mc {
+			continue
+		}
+		kc, ok := e.idx.ConstInt()
+		if !ok || !e.guard.IsTrue() || !(e.val.IsTrue() || e.val.IsFalse()) {
+			return nil, false
+		}
+		present[kc] = e.val.IsTrue()
+	}
+	if ex.initVisited == nil {
+		ex.initVisited = map[int]map[int64]bool{}
+	}
+	vis := ex.initVisited[it.id]
+	if vis == nil {
+		vis = map[int64]bool{}
+		ex.initVisited[it.id] = vis
+	}
+	var keys []int64
+	for k, p := range present {
+		if p && !vis[k] {
+			keys = append(keys, k)
+		}
+	}
+	sort.Slice(keys, func(i, j int) bool { return keys[i] < keys[j] })
+	tt := x.Type().(*types.Tuple)
+	used := func(i int) bool { t := tt.At(i).Type(); return t != nil && t.String() != "invalid type" }
+	if used(1) && isString(mt.Key()) {
+		return nil, false
+	}
+	tv := TupleV{False(), nil, nil}
+	if len(keys) == 0 {
+		if used(1) {
+			tv[1] = ex.zeroValue(tt.At(1).Type())
+		}
+		if used(2) {
+			tv[2] = ex.zeroValue(tt.At(2).Type())
+		}
+		return tv, true
+	}
+	k := keys[0]
+	vis[k] = true
+	tv[0] = True()
+	if used(1) {
+		tv[1] = Value(Int(k))
+	}
+	if used(2) {
+		tv[2] = ex.loadAt(base, m, Int(k), mt.Elem(), -1)
+	}
+	return tv, true
+}
+
 func (ex *Exec) mapNext(f *Frame, x *ssa.Next, it *Term, mt *types.Map) Value {
+	if ex.cfg.initMode && f.cur.IsTrue() {
+		if tv, ok := ex.mapNextConcrete(f, x, it, mt); ok {
+			return tv
+		}
+	}
 	reach := f.cur
 	m := ex.gread("mapiter.map", it)
 	base := mapBase(mt)
